@@ -290,6 +290,25 @@ def expand_input(idx, ctx, only=None):
         ctx.sample(case1)
 
 
+def expand_triples(idx, ctx):
+    """Chains of three converters (c1 in each position, every ordered pair of other inputs, both case modes): a record of the
+    third may be merged into a record that already absorbed one of the second. No follow-ups: the frame is checked right after."""
+    base = {"c1": recs_to_json(INPUTS[idx]), "others": {f"in{j}": recs_to_json(INPUTS[j]) for j in range(len(INPUTS))}}
+    n = len(INPUTS)
+    for j in range(n):
+        for k in range(n):
+            for pos in range(3):
+                src = [f"in{j}", f"in{k}"]
+                src.insert(pos, "c1")
+                for cs in (True, False):
+                    case = {"c1": base["c1"], "others": {m_: base["others"][m_] for m_ in src if m_ != "c1"}, "steps": [{"do": "chain", "src": src, "cs": cs}]}
+                    fails = run_history(case, ctx)
+                    report(ctx, case, fails)
+                    ctx.count("chains_of_three")
+                    if not fails:
+                        ctx.count("validated")
+
+
 def report(ctx, case, fails):
     for sig, msg in fails[:2]:
         ctx.violation("C10/" + sig, msg, case)
@@ -305,12 +324,16 @@ def units(tier, seed):
     for i in range(len(INPUTS)):
         n = len(derivations(Model(INPUTS[i], ":"), range(len(INPUTS))))
         out.extend({"input": i, "derivations": ch, "tier": tier} for ch in chunks(list(range(n)), 16 if tier == "quick" else 64))
+        out.append({"input": i, "triples": True, "tier": tier})
     return out
 
 
 def run_unit(unit, ctx):
     global TIER
     TIER = unit.get("tier", "quick")
+    if unit.get("triples"):
+        expand_triples(unit["input"], ctx)
+        return
     expand_input(unit["input"], ctx, set(unit["derivations"]))
 
 
